@@ -498,9 +498,6 @@ def c11(res, ctx):
         if xa != xb:
             if k < MAXREP: res.violation('session', sc[i] + ' || ' + sc[i + 1], ' '.join(xa), ' '.join(xb), 'property', 'search score differs between a position and its colour-flipped twin')
             k += 1
-    kf = [x for x in V.known_findings() if x.get('property') == 'C11']
-    for x in kf:
-        res.known.append('class=%s %s' % (x.get('class'), x.get('text')))
     return dict(rule='static evaluation of generated legal positions and their colour-flipped twins (all game stages the generators reach); all mate/stalemate positions among generated few-piece endgames x full-move numbers %s; go depth 1..3 on twins' % fulls)
 
 # ------------------------------------------------------------------ C16
